@@ -302,7 +302,7 @@ def gen_positions(rnd: random.Random, prog: dict, nsteps: int, force: str | None
             if not pos:
                 pos["s0_beta"] = [dy(rnd, -1, 1) for _ in prog["smooths"][0]["beta"]]
         extra = {}
-        if force == "simfail" or rnd.random() < 0.06:
+        if force == "simfail" or rnd.random() < 0.03:
             # a simulate() call (it FAILS when the model has a weak variable with a distribution or a distribution
             # object without .sample), caught; then all values are assigned back plus this position
             steps.append({"mode": "simfail", "pos": pos})
